@@ -48,6 +48,11 @@ PROBE_FILES = {
                         'uint4[<=3] va4\nuint8[<=4] va8\nutf8[<=5] s\nbyte[3] fb\nint5[2] fi5\nfloat16[<=2] vf16\nfloat32[2] ff32\nfloat64[<=2] vf64\n'
                         'bool[<=5] vb\nint16[<=3] vi16\nuint17[<=2] vu17\nInner.1.0 inner\nInner.1.0[2] fin\nU.1.0[<=2] vu\nU.1.0 u\nvoid3\nD.1.0 d\n'
                         '@extent 2048 * 8\n'),
+    # the same short name and version in two namespaces (class lookup by model must keep them apart)
+    'c18p/geo/Point.1.0.dsdl': 'int8 x\nint8 y\n@sealed\n',
+    'c18p/img/Point.1.0.dsdl': 'uint16 u\nfloat32 v\nbool ok\n@sealed\n',
+    'c18p/Pair.1.0.dsdl': 'c18p.geo.Point.1.0[<=2] g\nc18p.img.Point.1.0[<=2] i\nc18p.geo.Point.1.0 a\nc18p.img.Point.1.0 b\n@sealed\n',
+    'c18p/PairU.1.0.dsdl': '@union\nuint8 n\nc18p.img.Point.1.0 b\nc18p.geo.Point.1.0 a\nc18p.img.Point.1.0[<=2] i\n@sealed\n',
     'c18p/Svc.1.0.dsdl': 'uint4[<=2] q\nU.1.0 u\n@sealed\n---\nfloat16 r\nInner.1.0[<=2] l\n@extent 100 * 8\n',
 }
 
@@ -1029,6 +1034,8 @@ def main(chk: core.Check, replay: typing.Optional[str] = None) -> int:
         model_ops += r['model_ops']
         n_cases += r.get('n_cases', 0)
         n_types += r.get('n_types', 0)
+    if witness is None:
+        broken.append('the probe namespace c18p could not be generated/run, the known finding could not be probed: %s' % '; '.join(errors)[:600])
     if witness and not chk.is_known(FID):
         oracle.insert(0, {'class': 'invalid_accepted', 'detail': 'witness of %s reproduces but the finding is not listed as known' % FID,
                           'dsdl': PROBE_FILES})
@@ -1057,6 +1064,8 @@ def main(chk: core.Check, replay: typing.Optional[str] = None) -> int:
                                                                                    e.get('impl'), e.get('model')))
                 if not r['oracle'] and not r['mismatch']:
                     print('replay: the case no longer fails (%d operations compared)' % r.get('model_ops', 0))
+    if errors and witness is None:
+        oracle = []      # without the probe nothing can be classified: report the broken harness, not instances of the known finding
     if oracle:
         e = shrink_ops(oracle[0])
         chk.violation({'what': 'the real generated class violates the data-object contract: %s (%s)' % (e['class'], e.get('detail')),
